@@ -58,12 +58,15 @@ def class_of(func: str) -> str:
     return func.split('.')[0] if '.' in func else ''
 
 
-def collect_merge(res: CheckResult, repo: str) -> Dict[str, dict]:
+def collect_merge(res: CheckResult, repo: str, want=lambda cname: True) -> Dict[str, dict]:
     mr = merge_results(repo)
     ok = {}
     for cname, r in mr.items():
         if not r.get('ok'):
-            res.error(r.get('error', f'{cname}: analysis failed'))
+            if want(cname):
+                res.error(r.get('error', f'{cname}: analysis failed'))
+            else:
+                res.extra.setdefault('unanalysed_classes_outside_scope', []).append(cname)
         else:
             ok[cname] = r
             for note, n in r['notes'].items():
@@ -125,8 +128,8 @@ def order_property(prop: str, lvl: str, repo: str, tier: str) -> CheckResult:
                                         'RETURNS-RO', 'SEARCH-SUMMARY')}
     if lvl == 'item':
         res.rules['STORY-SCOPED'] = RULES['STORY-SCOPED']
-    results = collect_merge(res, repo)
     want_c = lambda c: level(c) == lvl or (lvl == 'story' and level(c) == 'ro')   # noqa: E731
+    results = collect_merge(res, repo, want_c)
     want = lambda c, f: want_c(c)                                                  # noqa: E731
     add_sites(res, results, 'index-use', 'IDX', want_c)
     add_findings(res, results, IDX_RULES, want, as_rule=lambda f: 'IDX')
@@ -152,7 +155,7 @@ def order_property(prop: str, lvl: str, repo: str, tier: str) -> CheckResult:
         add_sites(res, {c: r for c, r in results.items() if want_c(c)}, 'item-lookup', 'STORY-SCOPED')
         add_findings(res, results, {'STORY-SCOPED'}, want)
     summary_obligations(res, results)
-    res.floors = {'IDX': 8 if lvl == 'story' else 8, 'SEARCH-SUMMARY': 1, 'CONSERVE': 4}
+    res.floors = {'IDX': 8 if lvl == 'story' else 5, 'SEARCH-SUMMARY': 1, 'CONSERVE': 4}
     what = 'story' if lvl == 'story' else 'item'
     res.explanation = (
         f'Static analysis (abstract interpretation with index typestate) of every {what}-level merge method entered through '
@@ -185,7 +188,7 @@ def prop_C03(repo, tier):
     add_sites(res, results, 'meta-replace', 'META-SCHEMA')
     add_findings(res, results, {'FRAME', 'WILDCARD', 'ID-FALLBACK', 'META-SCHEMA', 'STORY-SCOPED', 'UNMODELLED-MUTATION'},
                  as_rule=lambda f: 'FRAME' if f['rule'] == 'UNMODELLED-MUTATION' else f['rule'])
-    res.floors = {'FRAME': 30, 'WILDCARD': 30, 'META-SCHEMA': 1}
+    res.floors = {'FRAME': 22, 'WILDCARD': 22, 'META-SCHEMA': 1}
     res.explanation = (
         'Static analysis of all merge methods: FRAME (who may be mutated, from the effect traces and the role table), WILDCARD '
         '(a possibly-None ID never selects "first child"), ID-FALLBACK (explicit blank ID never replaced by another ID of the '
@@ -207,6 +210,7 @@ def prop_C04(repo, tier):
     add_sites(res, results, 'payload-loop', 'PAYLOAD-ALL')
     add_sites(res, results, 'copy-mutation', 'SPLICE')
     add_findings(res, results, {'PAYLOAD-PURE', 'PAYLOAD-ALL', 'MSG-READONLY', 'SPLICE'})
+    add_findings(res, results, {'NO-SHARE'}, want=lambda c, f: 'stays referenced by the message object' in f['detail'], as_rule=lambda f: 'PAYLOAD-PURE')
     # index typestate on the deep copy (conversion) belongs here
     add_findings(res, results, IDX_RULES, want=lambda c, f: 'convert' in f['func'] or f['func'].startswith('RunningOrderReplace'),
                  as_rule=lambda f: 'SPLICE')
@@ -216,6 +220,7 @@ def prop_C04(repo, tier):
             ops = {tuple(map(tuple, o['rootops'])) for o in r['outcomes'] if o['result'] == 'return' and not o.get('guard_present')}
             ok = ops == {(('remove', 'roCreate', 'RO'), ('insert', 'roCreate', 'COPY'))}
             res.add('RO-REPLACE', f'{cname}.merge', 'remove(roCreate) ; insert(deepcopy re-tagged roCreate)', ok, '' if ok else f'root operations: {sorted(ops)}')
+    stale_cache(res, repo, merges=True, jobs=('msgaccessors',), funcs=lambda f: f.split('.')[-1] in ('story', 'stories', 'item', 'items', 'source_stories', 'source_story', 'base_tag'))
     res.floors = {'PAYLOAD-PURE': 12, 'SPLICE': 2, 'PAYLOAD-ALL': 8, 'RO-REPLACE': 1}
     res.explanation = (
         'Static analysis of the payload flow in all merges: every carried element reaches its insertion through identity or '
@@ -240,7 +245,7 @@ def prop_C05(repo, tier):
     def as_rule(f):
         return 'MAY-ALIAS-REMOVE' if 'remove' in f['construct'] and f['construct'].startswith('ValueError') else 'VALIDATE-BEFORE-MUTATE'
     add_findings(res, results, {'VALIDATE-BEFORE-MUTATE'}, as_rule=as_rule)
-    res.floors = {'VALIDATE-BEFORE-MUTATE': 40, 'MAY-ALIAS-REMOVE': 15}
+    res.floors = {'VALIDATE-BEFORE-MUTATE': 40, 'MAY-ALIAS-REMOVE': 10}
     res.explanation = (
         'Static analysis: in the interprocedural path enumeration of every merge (callees inlined, loops iterated to a fix-point so '
         'that "the k-th lookup fails after k-1 elements were moved" is one abstract path), no exceptional exit - explicit raise, '
@@ -268,7 +273,7 @@ def prop_C06(repo, tier):
         res.add('NO-EARLY-EXIT', f'{cname}.merge', 'loops over named elements', True)
     add_findings(res, results, {'MISS-REPORTED', 'WARN-CATEGORY', 'SILENT-SUCCESS', 'NO-EARLY-EXIT'})
     add_findings(res, results, {'LIVE-ITER'}, as_rule=lambda f: 'NO-EARLY-EXIT')
-    res.floors = {'MISS-REPORTED': 30, 'WARN-CATEGORY': 7}
+    res.floors = {'MISS-REPORTED': 22, 'WARN-CATEGORY': 5}
     res.explanation = (
         'Static analysis of every merge: each id-keyed lookup miss (and each duplicate-story test) creates a pending report that must '
         'be cleared by raise MosMergeError or by exactly one warnings.warn of the matching category before the merge returns; a '
@@ -290,6 +295,7 @@ def prop_C13(repo, tier):
     add_findings(res, results, {'NO-SHARE', 'MSG-READONLY', 'NO-RO-CAPTURE'})
     from . import rules_shape
     rules_shape.fresh_read(res, program(repo))
+    stale_cache(res, repo, merges=True, jobs=('msgaccessors',))
     res.floors = {'NO-SHARE': 14, 'MSG-READONLY': 20}
     res.explanation = (
         'Static taint analysis on element provenance: sources are all elements reachable from the message (self._xml), sinks are the '
@@ -328,7 +334,7 @@ def prop_C12(repo, tier):
                 res.add('CLASSIFY-TOTAL', f['func'], f['construct'], False, f['detail'], f['file'], f['line'], f['witness'])
     from . import rules_shape
     rules_shape.handler_covers(res, program(repo))
-    res.floors = {'NO-BUILTIN-ESCAPE': 24, 'CLASSIFY-TOTAL': 3}
+    res.floors = {'NO-BUILTIN-ESCAPE': 20, 'CLASSIFY-TOTAL': 3}
     res.explanation = (
         'Static nullness / partial-operation analysis with exception flow. For each of the 24 merges entered through '
         'RunningOrder.__add__ with a schema-shaped message (required tags present; ID texts possibly None; ID lists with their DTD '
@@ -369,6 +375,28 @@ LISTINGS = ['RunningOrder.stories', 'RunningOrder.script', 'RunningOrder.body', 
 ORDER_BREAKERS = ('sorted', 'reversed', 'set', 'sort', 'reverse', 'frozenset')
 
 
+STALE_TEXT = 'no property getter of a running-order / message object memoises document-derived values on the object (merges change the document afterwards)'
+
+
+def stale_cache(res: CheckResult, repo: str, *, merges=False, jobs=(), funcs=None):
+    """Adds STALE-CACHE obligations/findings from the requested engine results."""
+    res.rules['STALE-CACHE'] = STALE_TEXT
+    found = []
+    if merges:
+        for cname, r in merge_results(repo).items():
+            if r.get('ok'):
+                found += [f for f in r['findings'] if f['rule'] == 'STALE-CACHE']
+    if jobs:
+        for r in null_results(repo, jobs):
+            if r.get('ok'):
+                found += [f for f in r['findings'] if f['rule'] == 'STALE-CACHE']
+    if funcs is not None:
+        found = [f for f in found if funcs(f['func'])]
+    res.add('STALE-CACHE', 'getters', 'property getters evaluated by the analysed slices', True)
+    for f in found:
+        res.add('STALE-CACHE', f['func'], f['construct'], False, f['detail'], f['file'], f['line'], f['witness'])
+
+
 def null_one(res, repo, kind, name=None):
     out = [r for r in collect_null(res, repo, (kind,)) if name is None or r['name'] == name]
     if not out:
@@ -400,6 +428,8 @@ def prop_C15(repo, tier):
             res.add('NO-BUILTIN-ESCAPE', entry, 'all presence combinations of optional tags', True)
         for f in acc['findings']:
             res.add(f['rule'], f['func'], f['construct'], False, f['detail'], f['file'], f['line'], f['witness'])
+        res.rules['STALE-CACHE'] = STALE_TEXT
+        res.add('STALE-CACHE', 'getters', 'property getters evaluated by the analysed slices', True)
         order_pipe(res, acc, LISTINGS)
         for entry, (ptag, tag) in READS_OWN_TAG.items():
             reads = [tuple(x) for x in acc['reads'].get(entry, [])]
@@ -414,7 +444,7 @@ def prop_C15(repo, tier):
                     ok, detail = False, f'{entry} also depends on {extra}'
             res.add('READS-OWN-TAG', entry, f'reads <{ptag}>/<{tag}>', ok, detail)
         res.extra['functions_analysed'] = len(acc['functions'])
-    res.floors = {'NO-BUILTIN-ESCAPE': 30, 'ORDER-PIPE': 6, 'READS-OWN-TAG': 14}
+    res.floors = {'NO-BUILTIN-ESCAPE': 25, 'ORDER-PIPE': 6, 'READS-OWN-TAG': 14}
     res.explanation = (
         'Static nullness/exception-flow analysis of every public read accessor of RunningOrder, Story and Item (and __str__/__repr__/'
         'inspect) over a symbolic reachable running order in which every optional tag may be present or absent (the interpreter forks '
@@ -465,6 +495,7 @@ def prop_C17(repo, tier):
             ok = got == [('kept', row['expected'])]
             res.add('NOTE-TABLE', 'Story.script', f'text={row["text"]!r}', ok,
                     '' if ok else f'script yields {got} for paragraph text {row["text"]!r}; the specification says {row["expected"]!r}')
+    stale_cache(res, repo, jobs=('accessors',), funcs=lambda f: f.split('.')[-1] in ('script', 'body', 'stories', 'items', 'base_tag'))
     res.floors = {'ORDER-PIPE': 4, 'BODY-MAP': 3, 'NOTE-TABLE': 20}
     res.explanation = (
         'Static analysis: (1) ORDER-PIPE/BODY-MAP from the abstract evaluation of Story.body/script and RunningOrder.body/script; '
@@ -538,7 +569,8 @@ def prop_C20(repo, tier):
         res.add('INSPECT-TOTAL', f'{cname}.inspect', 'all exits of inspect()', True)
         for f in ir['findings']:
             res.add(f['rule'], f['func'], f['construct'], False, f['detail'], f['file'], f['line'], f['witness'])
-    res.floors = {'ACCESSOR-ROLE': 40, 'INSPECT-TOTAL': 25, 'INSPECT-SOURCES': 15, 'INSPECT-LABEL': 20}
+    stale_cache(res, repo, merges=True, jobs=('msgaccessors', 'inspect'))
+    res.floors = {'ACCESSOR-ROLE': 35, 'INSPECT-TOTAL': 20, 'INSPECT-SOURCES': 12, 'INSPECT-LABEL': 15}
     res.explanation = (
         'Static analysis of every message class: the abstract interpreter evaluates each public accessor on a symbolic schema-shaped '
         'message and reads off the provenance of the ids it exposes (container, first/each/n-th, slice); this must equal the MOS role '
@@ -642,7 +674,8 @@ def prop_C07(repo, tier):
     if marker:
         rules_shape.marker_writers(res, prog, marker)
     rules_shape.detect_completed(res, prog)
-    res.floors = {'GUARD-DOM': 24, 'NEVER-COMPLETED': 23, 'MARKER-AGREE': 1, 'END-FRAME': 1, 'NO-BYPASS': 1}
+    stale_cache(res, repo, merges=True, jobs=('accessors',), funcs=lambda f: f.endswith('.completed') or f.endswith('.xml'))
+    res.floors = {'GUARD-DOM': 20, 'NEVER-COMPLETED': 19, 'MARKER-AGREE': 1, 'END-FRAME': 1, 'NO-BYPASS': 1}
     res.explanation = (
         'Static analysis: RunningOrder.__add__ is interpreted for each of the 24 message classes with the completion marker present '
         'and absent: marker present => MosCompletedMergeError and an empty effect trace (GUARD-DOM); the post-state of a roDelete merge '
@@ -679,7 +712,8 @@ def prop_C14(repo, tier):
                  as_rule=lambda f: 'ROOT-WRITERS')
     add_findings(res, results, {'FRAME'}, want=lambda c, f: 'ro.xml)' in f['detail'] or "parent=ro.xml" in f['detail'], as_rule=lambda f: 'ENVELOPE-UNTOUCHED')
     rules_shape.serializer(res, prog)
-    res.floors = {'ROOT-WRITERS': 24, 'SERIALIZER': 2}
+    stale_cache(res, repo, merges=True, jobs=('accessors',), funcs=lambda f: f.split('.')[0] in ('MosFile', 'RunningOrder'))
+    res.floors = {'ROOT-WRITERS': 20, 'SERIALIZER': 2}
     res.explanation = (
         'ENVELOPE CLAUSE ONLY. Decided statically: which effects any merge can have on the root element (exactly one running-order '
         'element: roReplace = one out / re-tagged deep copy in at the same slot; at most one completion record: roDelete appends one '
